@@ -1,6 +1,8 @@
 package rules
 
 import (
+	"go/constant"
+	"os"
 	"strings"
 
 	"golang.org/x/tools/go/ssa"
@@ -54,6 +56,37 @@ func runC07(c *an.Ctx) {
 			c.Check(okF, "C07.a", "add-then-trigger", "every new sync target added to the pending ranges is followed by a sync trigger", setLocal, ac, strOf(bad), nil)
 		}
 		c.Min("C07.a", "pending additions in the setter", len(callsTo(setLocal, rangesAdd)), 1)
+		// a head above the store head always becomes a sync target: the only way past
+		// the pending addition is "the store already has it"
+		{
+			st, sf := c.T(setLocal), c.F(setLocal)
+			var hc *ssa.Call
+			an.Instrs(setLocal, func(in ssa.Instruction) {
+				if call, isCall := in.(*ssa.Call); isCall {
+					if cal := an.StaticCallee(&call.Call); cal != nil && an.FuncName(cal) == "sync.(*syncStore).Head" {
+						hc = call
+					}
+				}
+			})
+			if c.Check(hc != nil, "C07.a", "reads-store-head", "setLocalHead compares the new head with the store head", setLocal, nil, "", nil) {
+				sh, herr := "Height("+st.Of(hc)+"#0)", st.Of(hc)+"#1"
+				isAdd := an.IsCallTo(rangesAdd)
+				for name, assume := range map[string][]an.Fact{
+					"store-head-unreadable": {an.NE(herr, "nil")},
+					"ahead-of-store":        {an.EQ(herr, "nil"), an.LT(sh, "Height(p2)")},
+				} {
+					pr := sf.Prune(assume...)
+					okT := true
+					var at ssa.Instruction
+					for _, r := range pr.Returns() {
+						if !(an.Flow{Fn: setLocal, Skip: pr.Removed}).MustPrecede(isAdd, r) {
+							okT, at = false, r
+						}
+					}
+					c.Check(okT && len(pr.Returns()) > 0, "C07.a", "target-added:"+name, "a new head that the store does not have yet ("+name+") is always added to the pending ranges (and then triggers a sync)", setLocal, at, "", nil)
+				}
+			}
+		}
 		wt := c.T(wantSync)
 		okSel := false
 		an.Instrs(wantSync, func(in ssa.Instruction) {
@@ -236,7 +269,20 @@ func runC07(c *an.Ctx) {
 				}
 			}
 			c.Check(gapOK, "C07.c", "gap-filled-first", "when the cached range is not adjacent to the last applied header the gap up to its first header is requested first", procHeaders, nil, "", nil)
+			// a failed request aborts the attempt with its error: nothing is applied or reported done afterwards
+			for _, rc := range rcs {
+				pr := ff.Prune(an.NE(t.Of(rc), "nil"))
+				okAbort := !pr.Reachable(acs[0].Block()) || !(an.Flow{Fn: procHeaders, Skip: pr.Removed}).CanReach(rc, acs[0])
+				for _, r := range pr.Returns() {
+					if (an.Flow{Fn: procHeaders, Skip: pr.Removed}).CanReach(rc, r) || r.Block() == rc.Block() {
+						okAbort = okAbort && t.ErrShape(errResult(r)) != "nil" && !pr.AtRefined(r.Block()).Has(an.EQ(t.Of(errResult(r)), "nil"))
+					}
+				}
+				c.Check(okAbort, "C07.c", "failed-request-aborts", "when a range request fails processHeaders returns that error and applies nothing further", procHeaders, rc, "", nil)
+			}
 		}
+		n := checkArith(c, "C07.c", []*ssa.Function{procHeaders}, map[string]bool{"index": true, "slice": true}, nil, nil)
+		c.Min("C07.c", "index sites in processHeaders", n, 2)
 	}
 
 	// --- C07.d state error recorded and cleared
@@ -311,6 +357,136 @@ func runC07(c *an.Ctx) {
 				c.Check(!pr.Reachable(call.Block()), "C07.e", "ranges-strictly-increasing:"+an.FuncName(cal), "a header whose height is at or below the pending head is dropped: it neither extends the last range nor starts a new one", rangesAdd, call, "", ff.AtRefined(call.Block()))
 			})
 			c.Min("C07.e", "mutations of the pending ranges in Add", nMut, 2)
+			// … and a header above the pending head (or the first one) is never dropped
+			isMut := func(in ssa.Instruction) bool {
+				call, isCall := in.(*ssa.Call)
+				if !isCall {
+					return false
+				}
+				cal := an.StaticCallee(&call.Call)
+				return cal != nil && (an.FuncName(cal) == "sync.newRange" || an.FuncName(cal) == "sync.(*headerRange).Append")
+			}
+			for _, cs := range []struct {
+				name   string
+				assume []an.Fact
+			}{
+				{"first-header", []an.Fact{an.B("IsZero(" + hd + ")")}},
+				{"above-pending-head", []an.Fact{an.NotB("IsZero(" + hd + ")"), an.LT("Height("+hd+")", "Height(p1)")}},
+			} {
+				pa := ff.Prune(cs.assume...)
+				okAcc := len(pa.Returns()) > 0
+				var at ssa.Instruction
+				for _, r := range pa.Returns() {
+					if !(an.Flow{Fn: rangesAdd, Skip: pa.Removed}).MustPrecede(isMut, r) {
+						okAcc, at = false, r
+					}
+				}
+				c.Check(okAcc, "C07.e", "ranges-add-accepts:"+cs.name, "a header above everything pending ("+cs.name+") is always recorded: it extends the last range or starts a new one", rangesAdd, at, "", nil)
+			}
+			// a header is appended to the last range only when it is adjacent to its head (ranges are contiguous)
+			an.Instrs(rangesAdd, func(in ssa.Instruction) {
+				call, isCall := in.(*ssa.Call)
+				if !isCall {
+					return
+				}
+				if cal := an.StaticCallee(&call.Call); cal != nil && an.FuncName(cal) == "sync.(*headerRange).Append" {
+					fs := ff.AtRefined(call.Block())
+					c.Check(fs.Has(an.NotB("IsZero("+hd+")")) && fs.Has(an.EQ("Height(p1)", "(Height("+hd+")+1)")), "C07.e", "range-extended-only-adjacent",
+						"the last pending range is extended only by the header adjacent to its head (every range stays contiguous) and only when a range exists", rangesAdd, call, "", fs)
+				}
+			})
+		}
+		// rangeAmount(end) ≤ len(headers), given that no range ends exactly at end−1 (ranges-non-adjacent above;
+		// start+len does not wrap: heights are far below 2^64)
+		{
+			rt, rf := c.T(rangeAmount), c.F(rangeAmount)
+			nRet := 0
+			for _, r := range rf.Returns() {
+				nRet++
+				ln := an.Var("len(p0.headers)", true)
+				c.Check(rf.ProveGE(r.Block(), ln, rt.Affine(r.Results[0]), 0, an.NE("(len(p0.headers)+p0.start)", "p1")), "C07.e", "postcond:rangeAmount",
+					"rangeAmount(end) never exceeds the number of headers in the range (for a range that does not end exactly at end−1)", rangeAmount, r, "returns "+an.Stable(rt.Of(r.Results[0])), rf.AtRefined(r.Block()))
+			}
+			c.Min("C07.e", "returns of rangeAmount", nRet, 2)
+			// for a non-empty range that starts at or below `end`: at least one header, and none above `end`
+			pr := rf.Prune(an.LE("p0.start", "p1"))
+			nIn := 0
+			for _, r := range pr.Returns() {
+				nIn++
+				ret := rt.Affine(r.Results[0])
+				lo := pr.ProveGE(r.Block(), ret, an.Const(1), 0, an.LE("p0.start", "p1"), an.GE("len(p0.headers)", "1"))
+				hi := pr.ProveGE(r.Block(), an.Var("p1", true).Sub(an.Var("p0.start", true)).Add(an.Const(1)), ret, 0, an.LE("p0.start", "p1"))
+				c.Check(lo && hi, "C07.e", "postcond:rangeAmount-exact", "for start ≤ end and a non-empty range, 1 ≤ rangeAmount(end) ≤ end−start+1 (the header at `end` is included, none above it)", rangeAmount, r,
+					"returns "+an.Stable(rt.Of(r.Results[0])), pr.AtRefined(r.Block()))
+			}
+			c.Min("C07.e", "returns of rangeAmount for start ≤ end", nIn, 1)
+			// First(): hands out the first range only when it is non-empty, and drops a range from the queue only when it is empty
+			if first := p.Method("sync", "ranges", "First"); c.Need(first, "C07.e", "sync.(*ranges).First") {
+				ft, ffi := c.T(first), c.F(first)
+				emptyFn := p.Method("sync", "headerRange", "Empty")
+				nTrue, nDrop := 0, 0
+				an.Instrs(first, func(in ssa.Instruction) {
+					st, isSt := in.(*ssa.Store)
+					if !isSt {
+						return
+					}
+					if k, isK := st.Val.(*ssa.Const); isK && k.Value != nil && k.Value.Kind() == constant.Bool && constant.BoolVal(k.Value) {
+						// the range stored as result in the same block
+						var rng ssa.Value
+						for _, o := range st.Block().Instrs {
+							if os, isS := o.(*ssa.Store); isS && os != st {
+								if _, isAl := os.Addr.(*ssa.Alloc); isAl {
+									rng = os.Val
+								}
+							}
+						}
+						nTrue++
+						okNE := false
+						if rng != nil {
+							for _, ec := range callsTo(first, emptyFn) {
+								if ec.Call.Args[0] == rng && ffi.AtRefined(st.Block()).Has(an.NotB(ft.Of(ec))) {
+									okNE = true
+								}
+							}
+						}
+						c.Check(okNE, "C07.e", "first-returns-non-empty", "First() reports a range only after it tested that very range to be non-empty", first, st, "", ffi.AtRefined(st.Block()))
+					}
+					if fa, isFA := st.Addr.(*ssa.FieldAddr); isFA && fieldName(fa) == "ranges" {
+						nDrop++
+						sl, isSl := st.Val.(*ssa.Slice)
+						okDrop := isSl && sl.High == nil && ft.Of(sl.Low) == "1"
+						if okDrop {
+							okDrop = false
+							for _, ec := range callsTo(first, emptyFn) {
+								if an.Stable(ft.Of(ec.Call.Args[0])) == "p0.ranges[0]" && ffi.AtRefined(st.Block()).Has(an.B(ft.Of(ec))) {
+									okDrop = true
+								}
+							}
+						}
+						c.Check(okDrop, "C07.e", "first-drops-only-empty", "First() removes exactly the first range from the queue and only after it tested it to be empty (no pending header is dropped)", first, st, "", ffi.AtRefined(st.Block()))
+					}
+				})
+				c.Min("C07.e", "ranges handed out by First", nTrue, 1)
+				c.Min("C07.e", "queue removals in First", nDrop, 1)
+				if c.Need(emptyFn, "C07.e", "sync.(*headerRange).Empty") {
+					et := c.T(emptyFn)
+					for _, b := range emptyFn.Blocks {
+						if r, isRet := b.Instrs[len(b.Instrs)-1].(*ssa.Return); isRet && b != emptyFn.Recover {
+							v := an.Stable(et.Of(r.Results[0]))
+							c.Check(v == "(len(p0.headers) == 0)" || v == "(0 == len(p0.headers))", "C07.e", "empty-is-len-zero", "headerRange.Empty() is len(headers) == 0", emptyFn, r, "returns "+v, nil)
+						}
+					}
+				}
+			}
+			if os.Getenv("HDRCHECK_LOCKSURVEY") != "" {
+				checkLockBalance(c, "C07.z", p.RepoFuncs()...)
+			}
+			// the pending ranges and the sync state are mutex-protected: an unbalanced
+			// acquisition blocks the next sync attempt (or State()) for good
+			nl := checkLockBalance(c, "C07.e", funcsNamed(p, "sync.(*ranges).", "sync.(*headerRange).")...)
+			c.Min("C07.e", "mutex operations of the pending ranges", nl, 14)
+			nl = checkLockBalance(c, "C07.d", doSync, p.Method("sync", "Syncer", "State"))
+			c.Min("C07.d", "mutex operations on the sync state", nl, 6)
 		}
 		n := checkArith(c, "C07.e", []*ssa.Function{rangeAmount, p.Method("sync", "headerRange", "Get"), p.Method("sync", "headerRange", "Remove")}, map[string]bool{"usub": true, "index": true, "slice": true}, nil, []arithException{
 			{Func: "sync.(*headerRange).Get", Match: "[:", Reason: "rangeAmount(end) ≤ len(headers): it returns len, or end−start+1 when start+len ≥ end; start+len == end (which would give len+1) needs a range ending exactly at end−1 while `end` is the height of a header of a later pending range, impossible because ranges are never adjacent (checked: C07.e ranges-non-adjacent)"},
